@@ -7,6 +7,7 @@ import Dnp3.Proofs.C09Iter
 import Dnp3.Proofs.C09Builder
 import Dnp3.Proofs.C09Attr
 import Dnp3.Proofs.C09AttrOrder
+import Dnp3.Proofs.C09File70
 /-!
 # C09 — What one side encodes, the other side's parser decodes to the same objects
 -/
@@ -670,5 +671,258 @@ theorem build_request_parses_back_counterexample :
   @Dnp3.Proofs.C09AttrWalk.build_request_parses_back_counterexample 
 
 end Attr
+
+/-! ## file-transfer objects (group 70, free-format qualifier 0x5B): the seven objects, the free-format header, the master's file requests
+
+Model `Dnp3.Model.File70` (tied to the code by the regenerated `Gen/File70` — field order and widths of every `write` /
+`read`, offset constants, `byte_length`, enum codes, permission bits, the struct literals of the master's builders,
+the steps of `write_free_format` — and by differential execution, engine `file70`).  Strings are their UTF-8 octets:
+a name whose octet length differs from its character count is an ordinary value here.  Enumerations (`FileStatus`,
+`FileType`, `FileMode`) are their wire codes: `Other(x)` / `Reserved(x)` with a named code is a second in-memory
+spelling of the same wire value (e.g. `GetFileInfoTask` writes `FileType::Other(0)`, which reads back as `Directory`).
+`Group70Var6::write` and `Group70Var8::write` exist only under `#[cfg(test)]`; the outstation of this library version
+emits no group-70 object at all.  No statement of this section fails on the unchanged code. -/
+section File70
+open Dnp3.File70 Dnp3.Gen.File70
+/- `ExactObj v bs rest o` (Proofs/C09File70): `o` has variation `v`, is a value its struct can hold (`o.WF`), every size /
+   offset field is expressible (`o.Encodable`), and there is a raw 16-bit permission field `raw` with
+   `o.withPerm (permOf raw) = o` and `bs = encodeRaw raw o ++ rest` — the octets are exactly the encoding of `o` (offsets
+   the constants, size fields the octet lengths of the strings) followed by `rest`.
+   `freeRec o`: the record ⟨g70 v, free-format count 1 length |encode o|, file v, encode o⟩ of the object walk. -/
+open Dnp3.Proofs.C09File70 (ExactObj freeRec)
+
+/-- what each `write` function writes, in order, with which width: the model's field list is the regenerated one -/
+theorem layout_tied : ∀ o : FileObj, writeLayout.lookup o.variation = some o.layout :=
+  @Dnp3.Proofs.C09File70.layout_tied 
+
+/-- every `read` function reads the widths its `write` function writes, in the same order -/
+theorem read_layout_tied : ∀ v ∈ [2, 3, 4, 5, 6, 7, 8],
+    (readLayout.lookup v).map (·.map (·.2)) = (writeLayout.lookup v).map (·.map (·.2)) :=
+  @Dnp3.Proofs.C09File70.read_layout_tied 
+
+/-- the early returns of the `read` functions are the ones the model transcribes: the offset comparisons against the
+    constants, the checked sum of g70v2, one `from_utf8` per string; each `read_bytes` takes the size read for it -/
+theorem read_checks_tied :
+    readChecks = [
+      (2, ["user_name_offset!=USER_NAME_OFFSET", "password_offset!=implied_password_offset",
+           "implied_password_offset=USER_NAME_OFFSET+user_name_length", "utf8*2",
+           "u16binds:user_name_offset,user_name_length,password_offset,password_length"]),
+      (3, ["file_name_offset!=FILE_NAME_OFFSET", "utf8*1", "u16binds:file_name_offset,file_name_length,max_block_size,request_id"]),
+      (4, ["utf8*1", "u16binds:max_block_size,request_id"]),
+      (5, ["utf8*0", "u16binds:"]),
+      (6, ["utf8*1", "u16binds:"]),
+      (7, ["file_name_offset!=FILE_NAME_OFFSET", "utf8*1", "u16binds:file_name_offset,file_name_length,request_id"]),
+      (8, ["utf8*1", "u16binds:"])] ∧
+    (readLayout.lookup 2).map (·.filterMap fun r => if r.2 = "bytes" then some r.1 else none) = some ["user_name_length", "password_length"] ∧
+    (readLayout.lookup 3).map (·.filterMap fun r => if r.2 = "bytes" then some r.1 else none) = some ["file_name_length"] ∧
+    (readLayout.lookup 7).map (·.filterMap fun r => if r.2 = "bytes" then some r.1 else none) = some ["file_name_length"] ∧
+    offsetConsts = [(2, "USER_NAME_OFFSET", g70v2UserNameOffset), (3, "FILE_NAME_OFFSET", g70v3FileNameOffset),
+      (7, "FILE_NAME_OFFSET", g70v7FileNameOffset)] :=
+  @Dnp3.Proofs.C09File70.read_checks_tied 
+
+/-- **the size fields count octets**: `byte_length` hands `s.len()` — the length of the string in octets — to `to_u16` -/
+theorem byte_length_counts_octets : byteLengthExpr = "s.len()" :=
+  @Dnp3.Proofs.C09File70.byte_length_counts_octets 
+
+/-- the enumerations are coded injectively (`new` and `to_u8` / `to_u16` were checked to be mutually inverse by the
+    translator), so a wire code stands for one value -/
+theorem enum_codes_distinct :
+    (fileStatusCodes.map (·.1)).Nodup ∧ (fileStatusCodes.map (·.2)).Nodup ∧ (∀ p ∈ fileStatusCodes, p.1 < 256) ∧
+    (fileTypeCodes.map (·.1)).Nodup ∧ (fileTypeCodes.map (·.2)).Nodup ∧
+    (fileModeCodes.map (·.1)).Nodup ∧ (fileModeCodes.map (·.2)).Nodup ∧ blockTopBit = 2 ^ 31 :=
+  @Dnp3.Proofs.C09File70.enum_codes_distinct 
+
+/-- the permission bits: the bit `Permissions::read` tests for (who, what) is the bit `Permissions::value` sets for it,
+    and the nine bits are exactly bits 0..8 (`permOf` keeps them, the seven others are ignored) -/
+theorem permission_bits_consistent :
+    (∀ r ∈ permReadBits, ∃ s ∈ permShifts, ∃ b ∈ permSetBits, s.1 = r.1 ∧ b.1 = r.2.1 ∧ 2 ^ r.2.2 = b.2 * 2 ^ s.2) ∧
+    permReadBits.map (·.2.2) = [0, 1, 2, 3, 4, 5, 6, 7, 8] ∧ permReadBits.length = permShifts.length * permSetBits.length :=
+  @Dnp3.Proofs.C09File70.permission_bits_consistent 
+
+/-- the struct literals of the master's request builders are the ones the model's `authRequest` … `readBlockRequest`
+    transcribe, the function codes are the ones `RTask.request` and the driver use, `write_free_format` has the
+    steps `writeFreeFormat` models, and only g70v2 / v3 / v4 / v5 / v7 have a writer -/
+theorem builders_tied :
+    builders = [
+      ("mod::write_auth", 2, [("auth_key", "0"), ("user_name", "&credentials.user_name"), ("password", "&credentials.password")]),
+      ("mod::write_close", 4, [("file_handle", "handle.into()"), ("file_size", "0"), ("max_block_size", "0"),
+        ("request_id", "REQUEST_ID"), ("status_code", "FileStatus::Success"), ("text", "\"\"")]),
+      ("authenticate::write", 2, [("auth_key", "0"), ("user_name", "&self.credentials.user_name"), ("password", "&self.credentials.password")]),
+      ("open::write", 3, [("time_of_creation", "Timestamp::zero()"), ("permissions", "self.request.permissions"),
+        ("auth_key", "self.request.auth_key.into()"), ("file_size", "self.request.file_size"), ("mode", "self.request.file_mode"),
+        ("max_block_size", "self.request.max_block_size"), ("request_id", "REQUEST_ID"), ("file_name", "&self.request.file_name")]),
+      ("close::write", 4, [("file_handle", "self.handle.into()"), ("file_size", "0"), ("max_block_size", "0"),
+        ("request_id", "REQUEST_ID"), ("status_code", "FileStatus::Success"), ("text", "\"\"")]),
+      ("get_info::write", 7, [("file_type", "FileType::Other(0)"), ("file_size", "0"), ("time_of_creation", "Timestamp::zero()"),
+        ("permissions", "Default::default()"), ("request_id", "0xCAFE"), ("file_name", "self.file_name.as_str()")]),
+      ("write_block::write", 5, [("file_handle", "self.request.handle.into()"), ("block_number", "self.request.block_number.wire_value()"),
+        ("file_data", "&self.request.block_data")]),
+      ("read::write_open", 3, [("time_of_creation", "Timestamp::zero()"), ("permissions", "Permissions::default()"),
+        ("auth_key", "key.into()"), ("file_size", "0"), ("mode", "FileMode::Read"), ("max_block_size", "settings.config.max_block_size"),
+        ("request_id", "REQUEST_ID"), ("file_name", "&settings.name.0")]),
+      ("read::write_read", 5, [("file_handle", "rs.handle.into()"), ("block_number", "rs.block.wire_value()"), ("file_data", "&[]")])] ∧
+    taskFunctions = [("authenticate", ["AuthenticateFile"]), ("open", ["OpenFile"]), ("close", ["CloseFile"]),
+      ("get_info", ["GetFileInfo"]), ("write_block", ["Write"]), ("read", ["AuthenticateFile", "CloseFile", "OpenFile", "Read"])] ∧
+    (("AuthenticateFile", fnAuthenticateFile) ∈ functionCodes ∧ ("OpenFile", fnOpenFile) ∈ functionCodes ∧
+      ("CloseFile", fnCloseFile) ∈ functionCodes ∧ ("GetFileInfo", fnGetFileInfo) ∈ functionCodes ∧
+      ("Write", File70.fnWrite) ∈ functionCodes ∧ ("Read", fnRead) ∈ functionCodes) ∧
+    (fileModeCodes.lookup 1 = some "Read" ∧ fileStatusCodes.lookup 0 = some "Success") ∧
+    freeFormatWriters = [2, 3, 4, 5, 7] ∧
+    writeFreeFormatSteps = ["variation", "qualifier:FreeFormat16", "count:1", "skip:2", "object", "length:u16:checked", "patch:length"] ∧
+    Dnp3.Gen.File70.requestId < 2 ^ 16 :=
+  @Dnp3.Proofs.C09File70.builders_tied 
+
+/-- **parse (encode o) = o**, consuming exactly the encoded octets: every variation, every field value, every
+    string (as its UTF-8 octets) whose sizes the 16-bit size / offset fields can express -/
+theorem file_object_roundtrip (o : FileObj) (hwf : o.WF) (he : o.Encodable) :
+    parseObj o.variation (encode o) = .ok (o, []) :=
+  @Dnp3.Proofs.C09File70.file_object_roundtrip o hwf he
+
+/-- the objects that carry their own sizes (g70v2, v3, v7) are parsed back whatever follows them: the size
+    fields alone decide how many octets are consumed (a directory listing is a concatenation of g70v7 objects) -/
+theorem file_object_roundtrip_sized (o : FileObj) (rest : List Nat) (hwf : o.WF) (he : o.Encodable)
+    (hv : o.variation = 2 ∨ o.variation = 3 ∨ o.variation = 7) :
+    parseObj o.variation (encode o ++ rest) = .ok (o, rest) :=
+  @Dnp3.Proofs.C09File70.file_object_roundtrip_sized o rest hwf he hv
+
+/-- **the parser accepts an object only if the octets are exactly what it implies**: an accepted object has the
+    variation asked for, is a value the struct can hold, its offsets are the constants and its size fields the
+    lengths of its strings (the octets are `encodeRaw raw o`: the encoding of `o`, the seven reserved bits of a
+    permission field being whatever `raw` holds), nothing is skipped, and the objects without size fields
+    (g70v4, v5, v6, v8) take everything -/
+theorem file_parse_accepts_only_exact (v : Nat) (bs rest : List Nat) (o : FileObj) (hb : allOctets bs)
+    (h : parseObj v bs = .ok (o, rest)) :
+    ExactObj v bs rest o ∧ ((v = 4 ∨ v = 5 ∨ v = 6 ∨ v = 8) → rest = []) :=
+  @Dnp3.Proofs.C09File70.file_parse_accepts_only_exact v bs rest o hb h
+
+/-- the raw permission field of an object is its nine bits when the struct wrote it -/
+theorem encodeRaw_canonical (o : FileObj) (pm : Nat) (h : o.withPerm pm = o) : encodeRaw pm o = encode o :=
+  @Dnp3.Proofs.C09File70.encodeRaw_canonical o pm h
+
+/-- the typed parser and the value-less `fileRead` of the object walk (Model/ObjectGrammar) accept the same octet
+    strings, leave the same remainder of the sub-cursor and report the same error, for every variation -/
+theorem parseObj_agrees_with_fileRead (v : Nat) (bs : List Nat) : (parseObj v bs).map (·.2) = fileRead v bs :=
+  @Dnp3.Proofs.C09File70.parseObj_agrees_with_fileRead v bs
+
+/-- `write_free_format` succeeds exactly when no size overflows and header + object fit; then it has written
+    exactly the six header octets (count 1, the length of the object) and the object -/
+theorem writeFreeFormat_ok_iff (room : Nat) (o : FileObj) (img : List Nat) :
+    writeFreeFormat room o = .ok img ↔
+      o.Encodable ∧ (encode o).length ≤ 65535 ∧ 6 + (encode o).length ≤ room ∧
+      img = freeHeader o.variation (encode o).length ++ encode o :=
+  @Dnp3.Proofs.C09File70.writeFreeFormat_ok_iff room o img
+
+theorem free_header_parses_back (isRead zls : Bool) (o : FileObj) (rest : List Nat) (hwf : o.WF) (he : o.Encodable)
+    (hl : (encode o).length ≤ 65535) :
+    parseOne isRead zls (freeHeader o.variation (encode o).length ++ encode o ++ rest) = .ok (freeRec o, rest) :=
+  @Dnp3.Proofs.C09File70.free_header_parses_back isRead zls o rest hwf he hl
+
+/-- **a free-format header is accepted only if the octets present are exactly what it implies**: the count is 1,
+    the 16-bit length is the length of the object, the input is the header image followed by the rest, and the
+    object inside is an exact encoding (offsets the constants, size fields the string lengths, nothing left over) -/
+theorem free_header_accepts_only_exact (isRead zls : Bool) (bs rest : List Nat) (rec : HeaderRec) (c len : Nat)
+    (h : parseOne isRead zls bs = .ok (rec, rest)) (ok : bytesOk bs) (hs : rec.spec = .free c len) :
+    c = 1 ∧ len = rec.payload.length ∧ bs = rec.image ++ rest ∧
+      ∃ v o, rec.kind = .file v ∧ parseObj v rec.payload = .ok (o, []) ∧ ExactObj v rec.payload [] o :=
+  @Dnp3.Proofs.C09File70.free_header_accepts_only_exact isRead zls bs rest rec c len h ok hs
+
+/-- **a file request is written completely and parses back to the object that was built, or the write fails.**
+    `start_request(control, function)` + `write_free_format(o)` into `cap` octets: either the write fails —
+    exactly when a size field overflows, the object is longer than 65535 octets or header + object do not fit — or
+    the fragment fits the buffer, its application header parses back to the control field and function written,
+    its object section is exactly one free-format header (count 1, length = the object's length), and the object
+    in it parses back to `o`, every octet consumed. -/
+theorem file_request_roundtrip_or_write_error (cap : Nat) (fir fin con uns : Bool) (seq : Fin 16) (fn : Nat) (o : FileObj)
+    (hf : knownFunction fn = true) (hr : isResponseFn fn = false) (hwf : o.WF) :
+    let ctl : Control := ⟨fir, fin, con, uns, seq.val⟩
+    ((∃ e, buildRequest cap ctl.toByte fn o = .error e) ∧
+      (¬ o.Encodable ∨ 65535 < (encode o).length ∨ cap < 8 + (encode o).length)) ∨
+    (∃ frag, buildRequest cap ctl.toByte fn o = .ok frag ∧ frag.length = 8 + (encode o).length ∧ frag.length ≤ cap ∧
+      parseHeader frag = .ok ⟨ctl, fn, none, (freeRec o).image⟩ ∧
+      walk (fn == fnRead) false (freeRec o).image = .ok [freeRec o] ∧
+      (freeRec o).spec = .free 1 (encode o).length ∧
+      parseObj o.variation (freeRec o).payload = .ok (o, [])) :=
+  @Dnp3.Proofs.C09File70.file_request_roundtrip_or_write_error cap fir fin con uns seq fn o hf hr hwf
+
+/-- every object the master's file tasks build is a value of its struct whenever the arguments are values of their
+    Rust types (strings UTF-8, `u32` / `u16` numbers, nine permission bits) -/
+theorem master_request_objects_wf (name user pass data : List Nat) (key size mode perm maxBlock handle block : Nat)
+    (hn : isStr name) (hu : isStr user) (hp : isStr pass) (hd : allOctets data)
+    (hk : key < 2 ^ 32) (hs : size < 2 ^ 32) (hm : mode < 2 ^ 16) (hpm : perm < 512) (hmb : maxBlock < 2 ^ 16)
+    (hh : handle < 2 ^ 32) (hb : block < 2 ^ 32) :
+    (authRequest user pass).WF ∧ (openRequest name key size mode perm maxBlock).WF ∧ (closeRequest handle).WF ∧
+    (infoRequest name).WF ∧ (writeBlockRequest handle block data).WF ∧ (readOpenRequest name key maxBlock).WF ∧
+    (readBlockRequest handle block).WF :=
+  @Dnp3.Proofs.C09File70.master_request_objects_wf name user pass data key size mode perm maxBlock handle block hn hu hp hd hk hs hm hpm hmb hh hb
+
+/-- a directory listing made of well-formed file descriptors is read back as exactly those descriptors -/
+theorem directory_roundtrip (objs : List FileObj) (h : ∀ o ∈ objs, o.variation = 7 ∧ o.WF ∧ o.Encodable) :
+    parseDir (objs.flatMap encode) = some objs :=
+  @Dnp3.Proofs.C09File70.directory_roundtrip objs h
+
+
+/-! ### the file read task (`master/tasks/file/read.rs`): AUTHENTICATE, OPEN, READ …, CLOSE
+
+`RTaskWF t` (Proofs/C09File70): the task holds values of its Rust types — file name (and credentials) UTF-8, block size
+a `u16`, auth key / file handle / block number `u32`.  `runResponses t rs`: the task after the responses `rs` (each the
+object octets of a response fragment), `none` once a response ended it. -/
+open Dnp3.Proofs.C09File70 (RTaskWF runResponses)
+
+/-- whatever response arrives, the follow-up task again holds values of its Rust types -/
+theorem rtask_handle_wf (t t' : RTask) (objs : List Nat) (cbs : List RCb) (h : RTaskWF t) (hb : allOctets objs)
+    (hh : t.handle objs = (some t', cbs)) : RTaskWF t' :=
+  @Dnp3.Proofs.C09File70.rtask_handle_wf t t' objs cbs h hb hh
+
+/-- **every request the file read task ever sends parses back.**  From a task started with a UTF-8 file name (and
+    credentials), after ANY sequence of responses (octet strings), the request of the state reached — AUTHENTICATE
+    g70v2, OPEN g70v3, READ g70v5, CLOSE g70v4 — is an object of its struct; so by
+    `file_request_roundtrip_or_write_error` it is written completely and parsed back to what was built, or the write
+    fails -/
+theorem read_task_requests_wf (t t' : RTask) (responses : List (List Nat)) (h : RTaskWF t)
+    (hb : ∀ objs ∈ responses, allOctets objs) (hr : runResponses t responses = some t') :
+    RTaskWF t' ∧ t'.request.2.WF :=
+  @Dnp3.Proofs.C09File70.read_task_requests_wf t t' responses h hb hr
+
+
+example : RTaskWF ⟨[0x64, 0xC3, 0xA9], 1024, 4096, .openFile 0⟩ ∧
+    runResponses ⟨[0x64, 0xC3, 0xA9], 1024, 4096, .openFile 0⟩ [[70, 4, 0x5B, 1, 13, 0, 9, 0, 0, 0, 100, 0, 0, 0, 0, 2, 0x53, 0x46, 0]] =
+      some ⟨[0x64, 0xC3, 0xA9], 1024, 4096, .read 9 0 0⟩ := by
+  refine ⟨⟨?_, by decide, (by show (0 : Nat) < 2 ^ 32; decide)⟩, ?_⟩
+  · simp only [isStr, allOctets]; decide
+  · have hw : walk false false [70, 4, 0x5B, 1, 13, 0, 9, 0, 0, 0, 100, 0, 0, 0, 0, 2, 0x53, 0x46, 0] =
+        .ok [⟨.fixed 70 4, .free 1 13, .file 4, [9, 0, 0, 0, 100, 0, 0, 0, 0, 2, 0x53, 0x46, 0]⟩] :=
+      Dnp3.App.walk_single rfl
+    have hp : parseObj 4 [9, 0, 0, 0, 100, 0, 0, 0, 0, 2, 0x53, 0x46, 0] = .ok (.commandStatus 9 100 512 18003 0 [], []) := rfl
+    simp only [runResponses, RTask.handle, hw, hp]
+    rfl
+
+/-! ### non-vacuity: names whose octet length is not their character count -/
+
+/-- "dé" (3 octets, 2 characters) as the name of a file descriptor -/
+example : (FileObj.descriptor 1 0 0 0x1FF 7 [0x64, 0xC3, 0xA9]).WF ∧ (FileObj.descriptor 1 0 0 0x1FF 7 [0x64, 0xC3, 0xA9]).Encodable ∧
+    encode (.descriptor 1 0 0 0x1FF 7 [0x64, 0xC3, 0xA9]) = [20, 0, 3, 0, 1, 0, 0, 0, 0, 0, 0, 0, 0, 0, 0, 0, 0xFF, 1, 7, 0, 0x64, 0xC3, 0xA9] ∧
+    parseObj 7 [20, 0, 3, 0, 1, 0, 0, 0, 0, 0, 0, 0, 0, 0, 0, 0, 0xFF, 1, 7, 0, 0x64, 0xC3, 0xA9] = .ok (.descriptor 1 0 0 0x1FF 7 [0x64, 0xC3, 0xA9], []) := by
+  refine ⟨?_, ?_, rfl, rfl⟩
+  · simp only [FileObj.WF, isStr, allOctets]; decide
+  · simp only [FileObj.Encodable, FileObj.fields]; decide
+/-- the same octets with the size field holding the character count (2) are rejected: an octet is left in the sub-cursor -/
+example : parseOne false false ([70, 7, 0x5B, 1, 23, 0] ++ [20, 0, 2, 0, 1, 0, 0, 0, 0, 0, 0, 0, 0, 0, 0, 0, 0xFF, 1, 7, 0, 0x64, 0xC3, 0xA9]) = .error .badEncoding := by
+  rfl
+/-- a four-octet character as a password -/
+example : (FileObj.auth 0 [0x72] [0xF0, 0x9F, 0x93, 0x84]).WF ∧ (FileObj.auth 0 [0x72] [0xF0, 0x9F, 0x93, 0x84]).Encodable ∧
+    parseObj 2 (encode (.auth 0 [0x72] [0xF0, 0x9F, 0x93, 0x84])) = .ok (.auth 0 [0x72] [0xF0, 0x9F, 0x93, 0x84], []) := by
+  refine ⟨?_, ?_, rfl⟩
+  · simp only [FileObj.WF, isStr, allOctets]; decide
+  · simp only [FileObj.Encodable, FileObj.fields]; decide
+example : knownFunction fnAuthenticateFile = true ∧ isResponseFn fnAuthenticateFile = false ∧ isStr [0x64, 0xC3, 0xA9] := by
+  refine ⟨by decide, by decide, ?_⟩
+  simp only [isStr, allOctets]; decide
+/-- a size the 16-bit field cannot express: `write` fails with `Overflow`, nothing is sent -/
+example : ∀ n : List Nat, 65535 < n.length → ¬ (FileObj.descriptor 0 0 0 0 0 n).Encodable := by
+  intro n hn he
+  have := Dnp3.Proofs.C09File70.encodable_descriptor he
+  omega
+
+end File70
 
 end Dnp3.Props.C09
